@@ -129,6 +129,29 @@ def gen(tier, rng):
                     src = (HEAD + d + "Die Zahl i ist 0.\nDie Zahl j ist 0.\n" + 'Schreibe "start" auf eine Zeile.\n' + batch_src +
                            'Schreibe "ende" auf eine Zeile.\n')
                     progs.append((src, "start\n" + batch_want + "ende\n", (kind, form, n, "in-domain x%d" % nb, None)))
+    # the value obtained is never used (a local of a function that is not read again): the access still has to stop the program
+    ELEM = {"zahl": "Die Zahl", "text": "Der Text", "string": "Der Buchstabe"}
+    CONT = {"zahl": "Die Zahlen Liste", "text": "Die Text Liste", "string": "Der Text"}
+    for kind in ("zahl", "text", "string"):
+        for n in ns:
+            d, vals = decl(kind, n)
+            for form, body in (("unused-index", "%s weg ist (l an der Stelle a)." % ELEM[kind]),
+                               ("unused-slice", "%s weg ist (l im Bereich von a bis b)." % CONT[kind]),
+                               ("unused-index-in-condition", "Wenn (l an der Stelle a) gleich (l an der Stelle a) ist, dann:\n\t\tDie Zahl platzhalter ist 0.")):
+                fn = ('Die Funktion tu mit den Parametern a und b vom Typ Zahl und Zahl, gibt nichts zurück, macht:\n\t%s\nUnd kann so benutzt werden:\n\t"tu <a> <b>"\n\n' % body)
+                for i in sorted(set([-1, 0, 1, n, n + 1, n + 2, I64MAX, -2 ** 63])):
+                    j = n + 1 if form == "unused-slice" else 0
+                    if form == "unused-slice":
+                        good = n == 0 or clamp(j, 1, n) >= clamp(i, 1, n)
+                    else:
+                        good = 1 <= i <= n
+                    src = (HEAD + d + fn + 'Schreibe "start" auf eine Zeile.\ntu %s %s.\nSchreibe "ende" auf eine Zeile.\n' % (
+                        int_expr(i) if i >= 0 else "(%s)" % int_expr(i), int_expr(j)))
+                    progs.append((src, "start\nende\n" if good else None, (kind, form, n, i, j)))
+    vsrc = ('Die Funktion tu mit dem Parameter v vom Typ Variable, gibt nichts zurück, macht:\n\tDie Zahl weg ist (v als Zahl).\nUnd kann so benutzt werden:\n\t"tu <v>"\n\n')
+    for lit, good in (("5", True), ('"t"', False), ("1,5", False)):
+        progs.append((HEAD + vsrc + 'Die Variable w ist %s.\nSchreibe "start" auf eine Zeile.\ntu w.\nSchreibe "ende" auf eine Zeile.\n' % lit,
+                      "start\nende\n" if good else None, ("variable", "unused-cast", lit, 0, None)))
     # Variable casts and `...`
     for held, lit, target, shown in (("Zahl", "5", "Zahl", "5"), ("Zahl", "5", "Text", None), ("Text", '"t"', "Text", "t"),
                                      ("Text", '"t"', "Zahl", None), ("Kommazahl", "1,5", "Zahl", None), ("Wahrheitswert", "wahr", "Wahrheitswert", "wahr")):
